@@ -20,7 +20,17 @@ def main(argv=None) -> int:
     s.add_argument("what", choices=["determinism", "sensitivity"])
     s.add_argument("--ids", default="")
     s.add_argument("--runs", type=int, default=None)
+    d = sub.add_parser("digests")
+    d.add_argument("--ids", required=True)
+    d.add_argument("--runs", type=int, default=20)
+    d.add_argument("--jobs", type=int, default=16)
+    d.add_argument("--seed", type=int, default=0)
     args = ap.parse_args(argv)
+    if args.cmd == "digests":
+        import json
+        from . import selftest
+        print(json.dumps(selftest.digests(args.ids.split(","), args.runs, args.jobs, args.seed)))
+        return 0
 
     # a fixed hash seed for the driver itself (its behaviour must not depend on it; the
     # determinism self-test runs the driver under other values)
